@@ -3,9 +3,12 @@
 // igris::string, igris::move ...); to link it into the same program as
 // igris/container/static_vector.h the namespace is renamed for the translation
 // units that include this header.
-#include "C14/machine.h"
+#include "C14/prelude.h"
 #define igris igris_portable
 #include <igris/container/std_portable.h>
+// library and standard headers: the flags of the command line; the harness's own code: no optimisation (see twin_c.h)
+#pragma GCC optimize("O0")
+#include "C14/machine.h"
 namespace
 {
     struct TwinP
